@@ -6,11 +6,6 @@ import (
 	"verif/h/vf"
 )
 
-func init() {
-	reg("Spike_IntFloat", Spike_IntFloat)
-	reg("Spike_Script", Spike_Script)
-}
-
 func truthy(o tengo.Object, err error) bool {
 	return err == nil && !o.IsFalsy()
 }
